@@ -42,6 +42,7 @@ type logRec struct {
 	Ordinal   int      `json:"ordinal"`
 	Pid       int      `json:"pid"`
 	Phase     string   `json:"phase"` // "start" when the invocation begins, "end" when it is over
+	OutText   string   `json:"out_text,omitempty"` // what `rev-parse` answered (small)
 }
 
 func appendLog(rec logRec) {
@@ -79,13 +80,18 @@ func ordinal(dir, key string) int {
 }
 
 type countWriter struct {
-	w io.Writer
-	n int64
+	w    io.Writer
+	n    int64
+	keep bool
+	text []byte
 }
 
 func (c *countWriter) Write(p []byte) (int, error) {
 	n, err := c.w.Write(p)
 	c.n += int64(n)
+	if c.keep && len(c.text) < 4096 {
+		c.text = append(c.text, p[:n]...)
+	}
 	return n, err
 }
 
@@ -110,10 +116,11 @@ func main() {
 	cmd.Stderr = os.Stderr
 	cmd.Stdin = os.Stdin
 	if fl == nil {
-		cw := &countWriter{w: os.Stdout}
+		cw := &countWriter{w: os.Stdout, keep: strings.Contains(joined, "rev-parse ")}
 		cmd.Stdout = cw
 		err := cmd.Run()
 		rec.Out = cw.n
+		rec.OutText = string(cw.text)
 		if err != nil {
 			if ee, ok := err.(*exec.ExitError); ok {
 				rec.Exit = ee.ExitCode()
